@@ -640,6 +640,8 @@ def bounded(rep, tier):
 
 
 def check(rep, tier):
+    from vlib import statecensus
+    statecensus.obligations(rep, 'C04', 'parser')
     rep.dropped = ('string functions extracted from the AST of the real lexer/parser/printer methods (assign chains, if X[0]==c chains, replace/strip/'
                    'concat); everything else in those methods is rejected, not skipped; token regexes read from the real lexer classes')
     rep.assume('minterm abstraction: the transducers only copy input characters or emit constants',
